@@ -110,7 +110,7 @@ PROPS = {
         "props": "Props/Properties_C09.v",
         "level": "other",
         "technique": "Coq proof over a Gallina model of collapse_no_versions / merge_no_versions (explicit PANIC outcome): structural clauses for all trees, semantic preservation on any admissible set of assignments for every lawful VersionSet; + correspondence and an independent semantic oracle (validity on existing versions) on resolve trees with their registries and on synthetic DAGs",
-        "level_text": "9 Coq theorems about Model/Report.v. For every VersionSet and EVERY tree: a tree without NoVersions leaves is returned unchanged; in the result every NoVersions leaf that is a cause of a derived node sits next to a NoVersions or Custom leaf; collapse panics if and only if some derived node has the causes (NoVersions, NotRoot) in either order, so it never panics otherwise, nor on its own result. For every lawful VersionSet and any set of admissible assignments on which the NoVersions leaves are true (instance: assignments selecting registry versions only): if the derived nodes of t follow from their causes, so do those of the collapsed tree; its NoVersions leaves stay true; every leaf of the result is a leaf of t or a dependency leaf fired by exactly the same admissible assignments as one of t (true of the provider stays true on existing versions); the new top node is fired wherever the old one was, so it still forbids the root. Hypotheses of the semantic theorems: well-formed (canonical) version sets in the leaves and `related t` (a NoVersions(p) cause whose sibling collapses to a dependency leaf p1->p2 is about p1 or p2; merge_no_versions does not check this and would widen the wrong set otherwise). LEFT TO EXPLORATION (why the level is not 'proof'): that trees produced by resolve contain no (NoVersions, NotRoot) pair - i.e. the 'never panics on a tree produced by resolve' clause - and satisfy `related`; both are checked on every generated resolve tree (no panic observed; `related` checked by the oracle), together with an independent re-check of all semantic clauses on the Rust result.",
+        "level_text": "15 Coq theorems (Model/Report.v; Proofs/ReportProofs.v, SolverCollapse.v). For the trees resolve produces (nosolution_tree_meets_collapse_hypotheses, nosolution_tree_collapse): every NoSolution tree of the solver model is well formed, its NoVersions leaves are true on existing versions, its derived nodes are entailed for every assignment and it is `related`; hence, whenever it has no (NoVersions, NotRoot) pair, collapse_no_versions succeeds and the collapsed tree is locally entailed on existing versions, every leaf is equivalent on existing versions to a leaf of the original tree, NoVersions leaves survive only next to NoVersions/Custom leaves, and the top node still forbids the root. About collapse itself: For every VersionSet and EVERY tree: a tree without NoVersions leaves is returned unchanged; in the result every NoVersions leaf that is a cause of a derived node sits next to a NoVersions or Custom leaf; collapse panics if and only if some derived node has the causes (NoVersions, NotRoot) in either order, so it never panics otherwise, nor on its own result. For every lawful VersionSet and any set of admissible assignments on which the NoVersions leaves are true (instance: assignments selecting registry versions only): if the derived nodes of t follow from their causes, so do those of the collapsed tree; its NoVersions leaves stay true; every leaf of the result is a leaf of t or a dependency leaf fired by exactly the same admissible assignments as one of t (true of the provider stays true on existing versions); the new top node is fired wherever the old one was, so it still forbids the root. Hypotheses of the semantic theorems: well-formed (canonical) version sets in the leaves and `related t` (a NoVersions(p) cause whose sibling collapses to a dependency leaf p1->p2 is about p1 or p2; merge_no_versions does not check this and would widen the wrong set otherwise). LEFT TO EXPLORATION (why the level is not 'proof'): that trees produced by resolve contain no (NoVersions, NotRoot) pair - the 'never panics on a tree produced by resolve' clause; it is reduced in Coq to a condition on the run's store (nosolution_tree_no_pair_from_store: the not_root incompatibility is never a cause of a derived entry) whose run-level proof is pending, and is checked on every generated resolve tree (no panic observed), together with an independent re-check of all semantic clauses on the Rust result.",
         "level_note": "Trusted: Coq kernel, extraction, harness/driver, the oracle of ocaml/d_report.ml. Arc::make_mut un-sharing is modelled by a function on trees (observationally identical: the collapsed tree is compared node by node including shared ids). For synthetic DAGs 'existing versions' are the versions outside the union of the tree's NoVersions sets per package. Leaves true of the registry and local entailment BEFORE the call are C03's business (a leaf is only blamed on collapse if all leaves were true before).",
         "domains": ["collapse"],
         "exhaustive": False,
